@@ -1,6 +1,8 @@
 /-
   C18 — internal timers: the model's `timerUpdate` (the UpdateTimer arm of `trigger_update`)
-  against the contract function `C18.timerSpec` written from the property text.
+  against the contract function `C18.timerSpec` written from the property text.  Since the fix
+  of F10 in /repo (no timer running always sets the timer) the two agree unconditionally
+  (`C18_timerUpdate_spec`); `C18_timerUpdate_zero_sets` is the regression lemma.
 -/
 import MbVerif.Proofs.SimLive
 import MbVerif.Spec.C18
@@ -8,11 +10,10 @@ import MbVerif.Spec.C18
 namespace Mb.C18
 open Mb Mb.Sim
 
-/-- Away from the zero-duration corner, the simulator's timer update *is* the contract:
-    the stored expiry and the "TimerBegin now" decision agree with `timerSpec` for every current
-    timer value, clock, duration and replace flag. -/
-theorem C18_timerUpdate_spec (cur : Option Int) (now : Int) (durNs : Nat) (replace : Bool)
-    (h : cur.isSome ∨ 0 < durNs ∨ replace = true) :
+/-- The simulator's timer update *is* the contract: the stored expiry and the "TimerBegin now"
+    decision agree with `timerSpec` for every current timer value, clock, duration (including 0)
+    and replace flag. -/
+theorem C18_timerUpdate_spec (cur : Option Int) (now : Int) (durNs : Nat) (replace : Bool) :
     timerUpdate cur now durNs replace = timerSpec cur now durNs replace := by
   unfold timerUpdate timerSpec
   cases cur with
@@ -23,23 +24,12 @@ theorem C18_timerUpdate_spec (cur : Option Int) (now : Int) (durNs : Nat) (repla
       by_cases hlt : exp < now + (durNs : Int)
       · simp [hr', hlt]
       · simp [hr', hlt]
-  | none =>
-    by_cases hr : replace = true
-    · simp [hr]
-    · have hr' : replace = false := by cases replace <;> simp_all
-      have hd : 0 < durNs := by
-        rcases h with h | h | h
-        · simp at h
-        · exact h
-        · exact absurd h hr
-      have : now < now + (durNs : Int) := by omega
-      simp [hr', this]
+  | none => simp
 
-/-- The excluded corner is a real disagreement (finding F10): with no timer running, a
-    zero-duration UpdateTimer without replace leaves the timer unset and reports no TimerBegin,
-    whereas the contract sets it (expiring immediately) and requires TimerBegin. -/
-theorem C18_timerUpdate_zero_deviates (now : Int) :
-    timerUpdate none now 0 false = (none, false) ∧ timerSpec none now 0 false = (some now, true) := by
+/-- Regression of F10: with no timer running, a zero-duration UpdateTimer without replace sets
+    the timer (expiring at once) and reports TimerBegin, as the contract demands. -/
+theorem C18_timerUpdate_zero_sets (now : Int) :
+    timerUpdate none now 0 false = (some now, true) ∧ timerSpec none now 0 false = (some now, true) := by
   constructor
   · simp [timerUpdate]
   · simp [timerSpec]
